@@ -164,7 +164,12 @@ func c06Partition(b []byte, vpn bool, proto byte) {
 		off = 0
 	}
 	if len(b) < off+20 {
-		verifAssume(part == 1) // short frames: a single region
+		// short frames: a single region (the first one of the mode)
+		first := 1
+		if vpn {
+			first = 2
+		}
+		verifAssume(part == first)
 		return
 	}
 	isIP := vpn || (b[12] == 0x08 && b[13] == 0x00)
@@ -186,4 +191,39 @@ func c06Partition(b []byte, vpn bool, proto byte) {
 	case 5:
 		verifAssume(isIP && pr != 4 && pr != proto)
 	}
+}
+
+// VerifH_C06_tcpHistory3: a valid reply from one host, then a frame from a solver-chosen host
+// that decodes but yields no record (IPv4/UDP), then a valid reply with solver-chosen fields:
+// the last record carries the last frame's own fields.
+func VerifH_C06_tcpHistory3() {
+	vpn := verifParam("VPN", 0) == 1
+	res := &c06Results{}
+	sm := NewScanMethod(SYNScanType, nil, res, WithScanVPNmode(vpn), WithPacketFlagsFunc(c06BitFlags))
+	var eth []byte
+	if !vpn {
+		eth = []byte{0x10, 0x11, 0x12, 0x13, 0x14, 0x15, 0x00, 0x0c, 0x29, 0x04, 0x05, 0x06, 0x08, 0x00}
+	}
+	a := append(append([]byte{}, eth...), 0x45, 0, 0, 40, 0x12, 0x34, 0x40, 0, 64, 6, 0, 0, 192, 168, 0, 2, 192, 168, 0, 3,
+		0, 22, 0x80, 0x00, 0, 0, 0, 1, 0, 0, 0, 2, 0x50, 0x12, 0xff, 0xff, 0, 0, 0, 0)
+	_ = sm.ProcessPacketData(a[:len(a):len(a)], nil)
+	verifAssert(len(res.got) == 1, "valid TCP reply not reported exactly once")
+	res.got = nil
+	msrc := ndBytes("M.src", 4)
+	mproto := ndU8("M.proto")
+	verifAssume(mproto != 6 && mproto != 4 && mproto != 41 && mproto != 94)
+	m := append(append([]byte{}, eth...), 0x45, 0, 0, 28, 0x12, 0x35, 0x40, 0, 64, mproto, 0, 0)
+	m = append(append(m, msrc...), 192, 168, 0, 3, 0, 53, 0x80, 0x01, 0, 8, 0, 0)
+	_ = sm.ProcessPacketData(m[:len(m):len(m)], nil)
+	verifAssert(len(res.got) == 0, "a frame without a TCP header produced a record")
+	res.got = nil
+	c, cip, cport, c12, c13 := c06ValidReply(vpn)
+	err := sm.ProcessPacketData(c, nil)
+	verifAssert(err == nil && len(res.got) == 1, "valid TCP reply not reported exactly once")
+	if len(res.got) == 1 {
+		r := res.got[0].(*ScanResult)
+		verifAssert(r.IP == net.IP(cip).String(), "record address is not the frame's own source address (left over from an earlier frame?)")
+		verifAssert(r.Port == cport && r.Flags == c06BitFlagsRef(c12, c13), "record port/flags are not the frame's own")
+	}
+	verifCover("done")
 }
